@@ -10,6 +10,7 @@ import HdModel.Model.PoolDriver
 import HdModel.Model.ServerDriver
 import HdModel.Model.TlsDriver
 import HdModel.Model.NoPanicDriver
+import HdModel.Model.E2EDriver
 /-! Line-protocol driver.  One case per line:
       `<stream> <input tokens…> | <implementation observation tokens…>`
     Output, one line per case:
@@ -35,6 +36,7 @@ def handle (line : String) : String :=
     | "srvk" :: rest => Server.kernelLine rest obs
     | "tls" :: rest => Tls.driverLine rest obs
     | "np" :: rest => NoPanic.driverLine rest obs
+    | "e2e" :: rest => E2E.driverLine rest obs
     | _ => (false, false, "unknown-stream", "")
   s!"{boolTok r.1} {boolTok r.2.1} {r.2.2.1} | {r.2.2.2}"
 
